@@ -6,6 +6,7 @@ import (
 	"fmt"
 	"os"
 	"strings"
+	"sync"
 	"testing"
 	"time"
 
@@ -34,35 +35,52 @@ func TestRealProbe(t *testing.T) {
 		{"sleep-in-cmdsubst", "x=$(sleep 100)", false},
 		{"child-blocked-on-stdin", "cat", true},
 		{"read-blocked-on-stdin", "read x", true},
+		{"child-inherited-stdin-then-read", "sleep 0.01; read x", true},
+		{"child-inherited-stdin-then-read-loop", "true; sleep 0.01; while read x; do :; done", true},
+		{"test-t-0-then-read", "[ -t 0 ]; read x", true},
+		{"test-t-0-then-read-loop", "if test -t 0; then :; fi; while read x; do :; done", true},
+		{"test-t-1-then-read", "[ -t 1 ]; read x", true},
+		{"mapfile-blocked-on-stdin", "mapfile lines", true},
+		{"select-blocked-on-stdin", "select o in a b; do :; done", true},
 		{"loop-around-child", "while true; do sleep 0.05; done", false},
 		{"procsubst-with-child", "cat <(sleep 100)", false},
 	}
-	var results []ProbeResult
+	// The cases are independent (own runner, own pipes, own children) and
+	// mostly wait, so they run side by side; a case that did not return is
+	// not retried (20 s against an expected half second leaves load no
+	// chance), a case that returned a wrong result is.
+	type job struct {
+		name, prog  string
+		silentStdin bool
+		kt, bound   time.Duration
+	}
+	var jobs []job
 	// the kill timeout itself is a parameter of DefaultExecHandler: negative
 	// and zero mean "kill at once"
 	for _, kt := range []time.Duration{-1, 0, 50 * time.Millisecond} {
-		name := fmt.Sprintf("sigint-ignoring-child-killtimeout=%v", kt)
-		var res ProbeResult
-		for attempt := 1; attempt <= 2; attempt++ {
-			res = runRealProbe(name, `sh -c 'trap "" INT TERM; exec sleep 100'`, false, kt, max(kt, 0)+20*time.Second)
-			res.Attempts = attempt
-			if res.OK {
-				break
-			}
-		}
-		results = append(results, res)
+		jobs = append(jobs, job{fmt.Sprintf("sigint-ignoring-child-killtimeout=%v", kt), `sh -c 'trap "" INT TERM; exec sleep 100'`, false, kt, max(kt, 0) + 20*time.Second})
 	}
 	for _, c := range cases {
-		var res ProbeResult
-		for attempt := 1; attempt <= 2; attempt++ {
-			res = runRealProbe(c.name, c.prog, c.silentStdin, killTimeout, bound)
-			res.Attempts = attempt
-			if res.OK {
-				break
-			}
-		}
-		results = append(results, res)
+		jobs = append(jobs, job{c.name, c.prog, c.silentStdin, killTimeout, bound})
 	}
+	results := make([]ProbeResult, len(jobs))
+	var wg sync.WaitGroup
+	for i, j := range jobs {
+		wg.Add(1)
+		go func() {
+			defer wg.Done()
+			var res ProbeResult
+			for attempt := 1; attempt <= 2; attempt++ {
+				res = runRealProbe(j.name, j.prog, j.silentStdin, j.kt, j.bound)
+				res.Attempts = attempt
+				if res.OK || res.Class == "slow-after-cancel" {
+					break
+				}
+			}
+			results[i] = res
+		}()
+	}
+	wg.Wait()
 	b, _ := json.MarshalIndent(results, "", " ")
 	if err := os.WriteFile(out, b, 0o644); err != nil {
 		t.Fatal(err)
